@@ -148,3 +148,37 @@ func zzH_c04_split() {
 	vAssert("split-eq-ref", bytes.Equal(h.Sum(nil), refSM3(m)))
 	vReach("end")
 }
+
+// H04-alias: the hash never keeps or writes the caller's buffers: a message written as two
+// sub-slices of one backing array, with a Sum in between, leaves the array unchanged and
+// gives the digest of the whole message.
+//
+//verif:property C04
+//verif:expect-reach end
+//verif:bound one backing array of 130 symbolic bytes, split point each of {1,7,55,56,63,64,65,100,129}; Sum(nil) between the two writes; spare capacity behind the first sub-slice is the rest of the array
+//verif:unwind 300
+func zzH_c04_alias() {
+	m := vBytes("m", 130, 130)
+	orig := append([]byte(nil), m...)
+	pts := []int{1, 7, 55, 56, 63, 64, 65, 100, 129}
+	k := pts[vChoice("k", len(pts))]
+	h := New()
+	h.Write(m[:k])
+	d1 := h.Sum(nil)
+	vAssert("alias-prefix-digest", bytes.Equal(d1, refSM3(orig[:k])))
+	vAssert("alias-caller-array-unchanged-after-sum", bytes.Equal(m, orig))
+	h.Write(m[k:])
+	vAssert("alias-whole-digest", bytes.Equal(h.Sum(nil), refSM3(orig)))
+	vAssert("alias-caller-array-unchanged", bytes.Equal(m, orig))
+	// the caller may reuse its buffer after Write returns
+	m2 := vBytes("m2", 70, 70)
+	o2 := append([]byte(nil), m2...)
+	h2 := New()
+	h2.Write(m2[:33])
+	for i := range m2 {
+		m2[i] = 0
+	}
+	h2.Write(o2[33:])
+	vAssert("alias-buffer-reuse-after-write", bytes.Equal(h2.Sum(nil), refSM3(o2)))
+	vReach("end")
+}
